@@ -523,6 +523,9 @@ func (x *Exec) isNil(v Val) string {
 		if p.S == SInt {
 			return tEq(p.T, "0")
 		}
+		if p.S == SDyn {
+			return tEq(p.T, "dyn!nil")
+		}
 	case Obj:
 		if n, ok := p.F["isnil"]; ok {
 			return n.(Sc).T
@@ -645,10 +648,14 @@ func (x *Exec) convertTo(v Val, from, to types.Type, st *State) Val {
 	}
 	if kt, _ := classify(to); kt == kAny && from != nil {
 		if kf, _ := classify(from); kf != kAny {
-			// boxing into an interface value: an opaque non-nil token
-			b := x.c.fresh("boxed", SInt)
-			x.c.assumeHere( tGt(b, "0"))
-			return scInt(b)
+			// boxing into an interface value: a non-nil token that determines the dynamic type and the value
+			// (dyn!ty / dyn!i / dyn!r / dyn!s / dyn!ba / dyn!bl are the projections, see smtText)
+			if tok, ok := x.box(v, from); ok {
+				return Sc{tok, SDyn}
+			}
+			b := x.c.fresh("boxed", SDyn)
+			x.c.assumeHere(tNot(tEq(b, "dyn!nil")))
+			return Sc{b, SDyn}
 		}
 	}
 	return v
@@ -1214,4 +1221,76 @@ func (x *Exec) overflowCheck(op, res string, t types.Type, st *State, pos token.
 		return
 	}
 	x.c.obligeAssume("ovf", "", st.pc, tAnd(tLe("(- 9223372036854775808)", res), tLe(res, "9223372036854775807")), pos, "no int64 overflow: "+src)
+}
+
+// dynamic type codes of boxed values (interface values): the five types the repository stores in `any`
+// have fixed codes (used by the spec builtins dynbyte/dynint/...), other types get codes from 10 upwards.
+var dynCodes = map[string]int{"uint8": 1, "int": 2, "float64": 3, "string": 4, "[]uint8": 5}
+
+func dynCode(t types.Type) int {
+	name := types.TypeString(types.Unalias(t), nil)
+	if name == "byte" {
+		name = "uint8"
+	}
+	if name == "[]byte" {
+		name = "[]uint8"
+	}
+	if c, ok := dynCodes[name]; ok {
+		return c
+	}
+	c := 10 + len(dynCodes)
+	dynCodes[name] = c
+	return c
+}
+
+// box renders the interface value holding v (of static type t) as an application of an injective constructor.
+func (x *Exec) box(v Val, t types.Type) (string, bool) {
+	c := x.c
+	code := tInt(int64(dynCode(t)))
+	k, _ := classify(t)
+	switch vv := v.(type) {
+	case Sc:
+		switch {
+		case k == kInt && vv.S == SInt:
+			c.used["dyn!"] = true
+			return app("box!i", code, vv.T), true
+		case k == kReal:
+			c.used["dyn!"] = true
+			return app("box!r", code, toReal(vv)), true
+		case k == kStr && vv.S == SStr:
+			c.used["dyn!"] = true
+			c.usesStr = true
+			return app("box!s", code, vv.T), true
+		}
+	case Sl:
+		if a, ok := vv.Arr.(Sc); ok && a.S == arrSort(SInt, SInt) {
+			n := c.normView(vv)
+			c.used["dyn!"] = true
+			return app("box!b", code, n.Arr.(Sc).T, n.Len), true
+		}
+	}
+	return "", false
+}
+
+// unbox gives the value of dynamic type t held by the interface token tok.
+func (x *Exec) unbox(tok string, t types.Type) (Val, bool) {
+	c := x.c
+	c.used["dyn!"] = true
+	k, _ := classify(t)
+	switch k {
+	case kInt:
+		return scInt(app("dyn!i", tok)), true
+	case kReal:
+		return Sc{app("dyn!r", tok), SReal}, true
+	case kStr:
+		c.usesStr = true
+		return Sc{app("dyn!s", tok), SStr}, true
+	case kSlice:
+		if sl, ok := types.Unalias(t).Underlying().(*types.Slice); ok {
+			if b, ok := sl.Elem().Underlying().(*types.Basic); ok && b.Kind() == types.Uint8 {
+				return Sl{Sc{app("dyn!ba", tok), arrSort(SInt, SInt)}, "0", app("dyn!bl", tok), tFalse, sl.Elem()}, true
+			}
+		}
+	}
+	return nil, false
 }
